@@ -7,7 +7,7 @@ import (
 	"strconv"
 
 	"verif/harness/core"
-	_ "verif/harness/props"
+	"verif/harness/props"
 )
 
 func usage() {
@@ -25,6 +25,9 @@ func main() {
 			fmt.Println(id)
 		}
 		return
+	}
+	if a[0] == "--cold" {
+		os.Exit(props.ColdExec(a[1:]))
 	}
 	if a[0] == "--worker" {
 		if len(a) < 4 {
